@@ -153,7 +153,9 @@ func (csm *ClusterShardMapper) mapMstShards(s *influxql.Measurement, csming *Clu
 	// Retrieve the list of shards for this database. This list of
 	// shards is always the same regardless of which measurement we are
 	// using.
-	for _, source := range sources {
+	for srcIdx, source := range sources {
+		// sources[i] was built from measurements[i]: prune each with its own shard key and schema
+		mstInfo := measurements[srcIdx]
 		var shardInfosByPtID map[uint32][]executor.ShardInfo
 		if shardInfos := csming.ShardMap[source]; shardInfos != nil {
 			shardInfosByPtID = shardInfos
@@ -177,15 +179,18 @@ func (csm *ClusterShardMapper) mapMstShards(s *influxql.Measurement, csming *Clu
 			if !engineTypes[g.EngineType] {
 				continue
 			}
-			if shardKeyInfo == nil {
-				shardKeyInfo = measurements[0].GetShardKey(groups[i].ID)
+			// the measurement's shard key can differ between shard groups (ALTER ... SHARDKEY),
+			// so it is looked up per group unless the database defines one
+			groupShardKey := shardKeyInfo
+			if groupShardKey == nil {
+				groupShardKey = mstInfo.GetShardKey(groups[i].ID)
 			}
 			aliveShardIdxes := csm.MetaClient.GetAliveShards(s.Database, &groups[i], true)
 			var shs []meta2.ShardInfo
 			if opt.HintType == hybridqp.FullSeriesQuery || opt.HintType == hybridqp.SpecificSeriesQuery {
-				shs, csming.seriesKey = groups[i].TargetShardsHintQuery(measurements[0], shardKeyInfo, condition, opt, aliveShardIdxes)
+				shs, csming.seriesKey = groups[i].TargetShardsHintQuery(mstInfo, groupShardKey, condition, opt, aliveShardIdxes)
 			} else {
-				shs = groups[i].TargetShards(measurements[0], shardKeyInfo, condition, aliveShardIdxes)
+				shs = groups[i].TargetShards(mstInfo, groupShardKey, condition, aliveShardIdxes)
 			}
 
 			csm.updateShardInfosByPtID(s, g, shs, &shardInfosByPtID)
